@@ -204,6 +204,25 @@ def rule_b(ctx, cr):
             okd = bool(re.search(r"\.pc Add(WithOverflow)? const:1\)", a))
     ctx.check(okd, "C10.b", "def/entry-address", d.span,
               "the function's entry is pc + 1 (the first Pop after the jump)")
+    # every successful DEF replaces the whole entry (arity AND address): no Ok return avoids the
+    # insert, and nothing else hands out a mutable reference into the table
+    if ins:
+        oks = [b for b, i, st in d.aggregates("std::result::Result", "Ok")]
+        skip = set()
+        for b in oks:
+            if b in d.reach_set(0, avoid={c.bb for c in ins}):
+                skip.add(b)
+        ctx.check(bool(oks) and not skip, "C10.b", "def/records-arity-with-entry", ins[0].span,
+                  "every Ok return of Runtime::def passes the insert of (parameter count, entry)",
+                  "Runtime::def can succeed without inserting (count, entry): a second DEF of the "
+                  "same name with another parameter count keeps the old count, the call is "
+                  "rejected or the body pops the return address as a parameter")
+        v = d.value_of_operand(ins[0].args[2])
+        arity = d.describe(v["rv"]["ops"][0]) if v and v.get("k") == "rv" and \
+            v["rv"].get("agg") == "tuple" else ""
+        ctx.check("Stack<T>::pop" in arity, "C10.b", "def/arity-from-operand", ins[0].span,
+                  "the recorded parameter count is the popped operand (%s)" % arity[:80],
+                  "the parameter count recorded by DEF is not the operand the generator pushed")
     g = cr.need_fn("mach::codegen::Generator::def")
     c = g.calls_to("mach::link::Link::push_def_fn")
     ctx.check(len(c) == 1, "C10.b", "Generator::def/uses-push_def_fn", g.span, "DEF -> push_def_fn")
